@@ -182,6 +182,25 @@ Section Gen.
   Definition g_field (rec : option qname -> value -> bitem) (var : xvar) (x : value) : list bitem :=
     match x with VNone => [] | _ => g_wrap var (g_items rec var x) end.
 
+  (* the child objects one yielded field value contributes (the same in both directions) *)
+  Definition occ (var : xvar) (x : value) : list value :=
+    match x with
+    | VNone => []
+    | _ => match v_tokens_factory var with
+           | Some _ => match x with
+                       | VList _ [] => []
+                       | VList _ ((VList _ _ :: _) as l) => l
+                       | _ => [x]
+                       end
+           | None => match x with VList _ l => l | _ => [x] end
+           end
+    end.
+
+  (* the (field, value) pairs EventGenerator.next_value yields for an instance, in its order:
+     whole field values, and - inside a sequence group - the items of the list fields, round robin *)
+  Definition pairs (cl : cls) (fs : list (str * value)) (m : xmeta) : list (xvar * value) :=
+    match next_value (VObj cl fs) m with Ok l => l | Err _ => [] end.
+
   Fixpoint gobj (n : nat) (qn : option qname) (o : value) {struct n} : bitem :=
     match n, o with
     | S k, VObj cl fs =>
@@ -189,7 +208,7 @@ Section Gen.
         | Some m =>
             BNode (match qn with Some ((_ :: _) as q) => q | _ => m_qname m end)
                   (flat_map (fun var => g_attr var (field_of fs var)) (get_attribute_vars m))
-                  (flat_map (fun var => g_field (gobj k) var (field_of fs var)) (get_element_vars m))
+                  (flat_map (fun vv => g_field (gobj k) (fst vv) (snd vv)) (pairs cl fs m))
         | None => BData WNone
         end
     | _, _ => BData WNone
@@ -430,6 +449,88 @@ Section Gen.
       unfold emit. rewrite Hnil. destruct (X var); reflexivity.
   Qed.
 
+  (* ---------------------------------------------------------------- what next_value yields *)
+  Definition same_var (a b : xvar) : bool := N.eqb (v_index a) (v_index b).
+  (* the items a field received, in document order *)
+  Definition sel (var : xvar) (ps : list (xvar * value)) : list value :=
+    flat_map (fun vv => if same_var (fst vv) var then occ var (snd vv) else []) ps.
+  (* fields that occur in one pair at most: scalar fields and wrapped lists *)
+  Definition once_b (var : xvar) : bool :=
+    match v_factory var with None => true | Some _ => false end
+    || match v_wrapper_qname var with Some _ => true | None => false end.
+  (* a pair carries the whole value of the field, or - sequence groups - one item of its list *)
+  Definition pair_whole (fs : list (str * value)) (vv : xvar * value) : Prop := snd vv = field_of fs (fst vv).
+  Definition pair_part (fs : list (str * value)) (vv : xvar * value) : Prop :=
+    exists f t l, v_factory (fst vv) = Some f /\ v_tokens_factory (fst vv) = None /\ v_wrapper_qname (fst vv) = None
+                  /\ field_of fs (fst vv) = VList t l /\ In (snd vv) l.
+
+  Record pairs_spec (cl : cls) (fs : list (str * value)) (m : xmeta) (ps : list (xvar * value)) : Prop := {
+    ps_eq : next_value (VObj cl fs) m = Ok ps;
+    ps_src : forall vv, In vv ps -> In (fst vv) (get_element_vars m) /\ snd vv <> VNone
+                                     /\ (pair_whole fs vv \/ pair_part fs vv);
+    ps_once : NoDup (map (fun vv => v_index (fst vv)) (filter (fun vv => once_b (fst vv)) ps));
+    ps_sel : forall var, In var (get_element_vars m) -> sel var ps = occ var (field_of fs var)
+  }.
+
+  Lemma pairs_eq cl fs m ps : pairs_spec cl fs m ps -> pairs cl fs m = ps.
+  Proof. intros H. unfold pairs. rewrite (ps_eq _ _ _ _ H). reflexivity. Qed.
+
+  Lemma same_var_refl v : same_var v v = true.
+  Proof. apply N.eqb_refl. Qed.
+
+  Definition emit1 (fs : list (str * value)) (var : xvar) : list (xvar * value) :=
+    match field_of fs var with VNone => [] | x => [(var, x)] end.
+
+  Lemma sel_app var a b : sel var (a ++ b) = sel var a ++ sel var b.
+  Proof. unfold sel. apply flat_map_app. Qed.
+
+  Lemma sel_emit_other fs var v0 : v_index v0 <> v_index var -> sel var (emit1 fs v0) = [].
+  Proof.
+    intros H. unfold sel, emit1, same_var. destruct (field_of fs v0); try reflexivity; cbn [flat_map fst snd];
+      (destruct (N.eqb_spec (v_index v0) (v_index var)); [contradiction|reflexivity]).
+  Qed.
+
+  Lemma sel_emit_others fs var r : ~ In (v_index var) (map v_index r) -> sel var (flat_map (emit1 fs) r) = [].
+  Proof.
+    induction r as [|v1 r IH]; intros H; [reflexivity|]. cbn [flat_map]. rewrite sel_app, IH.
+    - rewrite app_nil_r. apply sel_emit_other. intros E. apply H. left. exact E.
+    - intros Hi. apply H. right; exact Hi.
+  Qed.
+
+  (* without sequence groups: every field once, in declaration order *)
+  Lemma pairs_spec_plain cl fs m :
+    map fst fs = map v_name (get_all_vars m) ->
+    (forall var, In var (get_element_vars m) -> In var (get_all_vars m)) ->
+    (forall var, In var (get_element_vars m) -> v_sequence var = None /\ v_nillable var = false) ->
+    NoDup (map v_index (get_element_vars m)) ->
+    pairs_spec cl fs m (flat_map (emit1 fs) (get_element_vars m)).
+  Proof.
+    intros Hnames Hall Hseq Hnd. constructor.
+    - unfold next_value. rewrite (next_value_loop_plain (VObj cl fs) (field_of fs) (get_element_vars m)); [reflexivity|lia|].
+      intros var Hv. destruct (Hseq var Hv) as [Hs Hn]. repeat split; try assumption.
+      apply (getattr_field cl fs m var Hnames (Hall var Hv)).
+    - intros [var x] Hin. apply in_flat_map in Hin as [var' [Hv Hx]]. unfold emit1 in Hx.
+      destruct (field_of fs var') eqn:E; cbn in Hx; try contradiction; destruct Hx as [Hx|[]]; inversion Hx; subst;
+        (split; [exact Hv|]; split; [discriminate|]; left; unfold pair_whole; cbn [fst snd]; symmetry; exact E).
+    - clear Hall Hseq. set (vars := get_element_vars m) in *. clearbody vars.
+      assert (E : map (fun vv : xvar * value => v_index (fst vv)) (filter (fun vv => once_b (fst vv)) (flat_map (emit1 fs) vars))
+                  = map v_index (filter (fun var => once_b var && match field_of fs var with VNone => false | _ => true end) vars)).
+      { clear. induction vars as [|var r IH]; [reflexivity|]. cbn [flat_map filter]. rewrite filter_app, map_app, IH.
+        unfold emit1. destruct (field_of fs var); cbn [filter fst]; destruct (once_b var); reflexivity. }
+      rewrite E. clear E. induction vars as [|var r IH]; [constructor|]. cbn [map] in Hnd. inversion Hnd as [|? ? Hni Hnd']; subst.
+      cbn [filter]. destruct (once_b var && _); [|apply IH; exact Hnd'].
+      cbn [map]. constructor; [|apply IH; exact Hnd'].
+      intros Hi. apply Hni. apply in_map_iff in Hi as [v [Ev Hv]]. apply filter_In in Hv as [Hv _]. rewrite <- Ev. apply in_map. exact Hv.
+    - intros var Hv. clear Hall Hseq. set (vars := get_element_vars m) in *. clearbody vars.
+      induction vars as [|v0 r IH]; [destruct Hv|]. cbn [map] in Hnd. inversion Hnd as [|? ? Hni Hnd']; subst.
+      cbn [flat_map]. rewrite sel_app.
+      destruct Hv as [->|Hv].
+      + rewrite (sel_emit_others fs var r Hni), app_nil_r. unfold sel, emit1. destruct (field_of fs var); try reflexivity;
+          cbn [flat_map fst snd]; rewrite same_var_refl, app_nil_r; reflexivity.
+      + rewrite (IH Hnd' Hv). rewrite (sel_emit_other fs var v0); [reflexivity|].
+        intros E. apply Hni. rewrite E. apply in_map. exact Hv.
+  Qed.
+
   (* ---------------------------------------------------------------- element fields *)
   Lemma var_common_inv var : var_common var = true ->
     v_init var = true /\ v_mixed var = false /\ v_any_type var = false /\ v_nillable var = false
@@ -569,6 +670,11 @@ Section Gen.
     unfold no_wrapper in Hnw. destruct (v_wrapper_qname var); [discriminate|reflexivity].
   Qed.
 
+  Lemma wf_text_nofactory var : wf_text var = true -> v_factory var = None.
+  Proof.
+    unfold wf_text. intros H. peel H H4. peel H H3. destruct (v_factory var); [discriminate|reflexivity].
+  Qed.
+
   Lemma wf_text_nowrap var : wf_text var = true -> v_wrapper_qname var = None.
   Proof.
     unfold wf_text. intros H. peel H H4. peel H H3. peel H H2. peel H Hnw.
@@ -629,6 +735,55 @@ Section Gen.
     - destruct tt, (is_tuple tf); try reflexivity; discriminate.
   Qed.
 
+  Lemma NoDup_app_r {A} (a b : list A) : NoDup (a ++ b) -> NoDup b.
+  Proof. induction a as [|x a IHa]; [auto|]. cbn [app]. intros H. inversion H; auto. Qed.
+
+  Lemma evars_indices_nodup m : wf_class m = true -> NoDup (map v_index (get_element_vars m)).
+  Proof.
+    intros Hwc. destruct (wf_class_inv m Hwc) as [F1 F2 F3 F4 F5 F6 F7 F8 F9 F10 F11 F12 F13].
+    rewrite (evars_eq m Hwc). apply sort_nodup_map.
+    rewrite (allvars_eq m Hwc) in F13.
+    assert (H : NoDup (map v_index (map snd (m_attributes m) ++ flat_map snd (m_elements m)
+                                    ++ match m_text m with Some t => [t] | None => [] end))).
+    { eapply Permutation.Permutation_NoDup; [|exact F13]. apply Permutation.Permutation_map. apply sort_perm. }
+    rewrite map_app in H. apply NoDup_app_r in H. exact H.
+  Qed.
+
+  Lemma evar_nonillable m var : wf_class m = true -> In var (get_element_vars m) -> v_nillable var = false.
+  Proof.
+    intros Hwc Hin. destruct (wf_class_evar m var Hwc Hin) as [[Hwe _]|[_ [Hwt _]]].
+    - destruct (wf_elem_inv var Hwe) as [_ [Hc _]]. destruct (var_common_inv var Hc) as [_ [_ [_ [Hn _]]]]. exact Hn.
+    - destruct (wf_text_inv var Hwt) as [_ [Hwt0 _]]. destruct (var_common_inv var Hwt0) as [_ [_ [_ [Hn _]]]]. exact Hn.
+  Qed.
+
+  (* without sequence groups *)
+  Lemma pairs_plain cl fs m :
+    wf_class m = true -> map fst fs = map v_name (get_all_vars m) ->
+    (forall var, In var (get_element_vars m) -> v_sequence var = None) ->
+    pairs cl fs m = flat_map (emit1 fs) (get_element_vars m).
+  Proof.
+    intros Hwc Hnames Hseq. apply pairs_eq.
+    apply pairs_spec_plain; [exact Hnames| | |apply evars_indices_nodup; exact Hwc].
+    - intros var Hv. apply (in_allvars m var Hwc). right; exact Hv.
+    - intros var Hin. split; [apply Hseq; exact Hin|apply (evar_nonillable m var Hwc Hin)].
+  Qed.
+
+  (* what next_value yields for a fitting instance *)
+  Lemma class_pairs cl fs m :
+    wf_class m = true -> map fst fs = map v_name (get_all_vars m) -> pairs_spec cl fs m (pairs cl fs m).
+  Proof.
+    intros Hwc Hnames.
+    assert (H : pairs_spec cl fs m (flat_map (emit1 fs) (get_element_vars m))).
+    { apply pairs_spec_plain; [exact Hnames| | |apply evars_indices_nodup; exact Hwc].
+      - intros var Hv. apply (in_allvars m var Hwc). right; exact Hv.
+      - intros var Hin. destruct (wf_class_evar m var Hwc Hin) as [[Hwe _]|[_ [Hwt _]]].
+        + destruct (wf_elem_inv var Hwe) as [_ [Hc _]]. destruct (var_common_inv var Hc) as [_ [_ [_ [Hn [_ [_ [_ [Hs _]]]]]]]].
+          split; assumption.
+        + destruct (wf_text_inv var Hwt) as [_ [Hwt0 _]]. destruct (var_common_inv var Hwt0) as [_ [_ [_ [Hn [_ [_ [_ [Hs _]]]]]]]].
+          split; assumption. }
+    rewrite (pairs_eq _ _ _ _ H). exact H.
+  Qed.
+
   Lemma wrap_ok var (r : gres (list wevent)) items :
     r = Ok (flat_map bflat items) ->
     (evs <- r ;; Ok (wrap_events var evs)) = Ok (flat_map bflat (g_wrap var items)).
@@ -663,39 +818,34 @@ Section Gen.
         apply (Hfa _ Hina). }
     cbn [gbind]. rewrite !app_nil_r.
     (* the field values *)
-    unfold next_value.
-    rewrite (next_value_loop_plain (VObj cl fs) (field_of fs) (get_element_vars m)); [|lia|].
-    2:{ intros var Hin. pose proof (getattr_field cl fs m var Hnames (in_allvars m var Hwc (or_intror Hin))) as Hg.
-        destruct (wf_class_evar m var Hwc Hin) as [[Hwe _]|[_ [Hwt _]]].
-        - destruct (wf_elem_inv var Hwe) as [_ [Hc _]]. destruct (var_common_inv var Hc) as [_ [_ [_ [Hn [_ [_ [_ [Hs _]]]]]]]].
-          repeat split; assumption.
-        - destruct (wf_text_inv var Hwt) as [_ [Hwt0 _]]. destruct (var_common_inv var Hwt0) as [_ [_ [_ [Hn [_ [_ [_ [Hs _]]]]]]]].
-          repeat split; assumption. }
+    pose proof (class_pairs cl fs m Hwc Hnames) as Hps.
+    rewrite (ps_eq _ _ _ _ Hps).
     cbn [gbind].
     (* the content *)
     rewrite (concatM_flat _ (fun vv => flat_map bflat (g_field (gobj n) (fst vv) (snd vv)))).
     2:{ intros [var x] Hin. cbn [fst snd].
-        apply in_flat_map in Hin as [var' [Hvar Hx]].
-        assert (Hxv : var' = var /\ x = field_of fs var /\ x <> VNone).
-        { destruct (field_of fs var') eqn:E; cbn in Hx; try contradiction;
-            destruct Hx as [Hx|[]]; inversion Hx; subst; rewrite E; repeat split; congruence. }
-        destruct Hxv as [-> [Hxe Hxn]]. clear Hx.
-        pose proof (odepth_field cl fs (v_name var) x) as Hdep.
+        destruct (ps_src _ _ _ _ Hps _ Hin) as [Hvar [Hxn Hsrc]]. cbn [fst snd] in Hvar, Hxn.
+        assert (Hfield : In (v_name var, field_of fs var) fs \/ field_of fs var = VNone).
+        { unfold field_of. destruct (assoc (v_name var) fs) eqn:Ea; [left; apply assoc_in; exact Ea|right; reflexivity]. }
         assert (Hdx : (odepth x < odepth (VObj cl fs))%nat).
-        { apply Hdep. subst x. unfold field_of in *.
-          destruct (assoc (v_name var) fs) eqn:Ea; [|congruence]. apply assoc_in. exact Ea. }
-        clear Hdep.
+        { destruct Hsrc as [Hw|[f0 [t0 [l0 [_ [_ [_ [El Hil]]]]]]]]; cbn [fst snd] in *.
+          - unfold pair_whole in Hw. cbn [fst snd] in Hw. destruct Hfield as [Hf|Hf]; [|congruence].
+            rewrite Hw. apply (odepth_field cl fs (v_name var)). exact Hf.
+          - destruct Hfield as [Hf|Hf]; [|congruence].
+            pose proof (odepth_field cl fs (v_name var) _ Hf) as H1. rewrite El in H1.
+            pose proof (odepth_item t0 l0 x Hil) as H2. lia. }
+        clear Hfield.
         destruct (wf_class_evar m var Hwc Hvar) as [[Hwe Hine]|[Htx [Hwt Hnoe]]].
         - (* an element field *)
           destruct (wf_elem_inv var Hwe) as [Hk [Hc Hty]].
           destruct (var_common_inv var Hc) as [_ [Hmx [Hany [Hn [_ [_ [_ [_ _]]]]]]]].
           rewrite (g_field_some (gobj n) var x Hxn). apply wrap_ok.
-          pose proof (Hfe _ var Hine (or_introl eq_refl)) as Hfv. rewrite <- Hxe in Hfv.
+          pose proof (Hfe _ var Hine (or_introl eq_refl)) as Hfv0.
           assert (Hkt : v_is KText var = false) by (destruct Hk as [_ [Hkt _]]; exact Hkt).
           unfold g_items. rewrite Hkt.
           destruct Hty as [[k [Htys [Hcl Htf]]]|[t [Htys [Hst Hcl]]]].
           + (* class typed *)
-            rewrite Htf. unfold Fits.fits_elem in Hfv. rewrite Htf in Hfv.
+            rewrite Htf.
             assert (Hobj : forall y, (odepth y <= odepth x)%nat -> fits_item (fits n) var y = true ->
                      forall f', (5 * odepth y + 2 <= f')%nat ->
                      run c u ign f' (CAnyType y var) = Ok (bflat (g_item (gobj n) var y))).
@@ -708,6 +858,17 @@ Section Gen.
               destruct f1 as [|f2]; [lia|]. rewrite (run_xsitype_exact f2 var k fs' Hk Htys Hn).
               cbn [g_item]. apply (IH k (VObj k fs') (Some (v_qname var))); [|exact Hr|lia].
               apply (Hnest _ var k Hine (or_introl eq_refl) Hcl). }
+            destruct Hsrc as [Hw|[f0 [t0 [l0 [Hf0 [_ [_ [El Hil]]]]]]]]; cbn [fst snd] in *.
+            2:{ (* one item of a list field inside a sequence group *)
+                rewrite El in Hfv0. unfold Fits.fits_elem in Hfv0. rewrite Hf0, Htf in Hfv0.
+                apply andb_true_iff in Hfv0 as [_ Hfl]. rewrite forallb_forall in Hfl. specialize (Hfl x Hil).
+                destruct (fits_item_class _ var k x Htys Hfl) as [cl' [fs' [Ex _]]].
+                destruct f as [|f0']; [cbn [odepth] in *; subst x; cbn [odepth] in Hdx; lia|].
+                rewrite (run_value_item f0' var x Hmx Hk Htf); [|subst x; reflexivity].
+                rewrite (Hobj x (le_n _) Hfl); [subst x; cbn [flat_map]; rewrite app_nil_r; reflexivity|].
+                subst x. cbn [odepth] in *. lia. }
+            unfold pair_whole in Hw. cbn [fst snd] in Hw. rewrite <- Hw in Hfv0. rename Hfv0 into Hfv.
+            unfold Fits.fits_elem in Hfv. rewrite Htf in Hfv.
             destruct (v_factory var) as [fa|] eqn:Efa.
             * destruct x as [| |tt l| | | |]; try discriminate Hfv. apply andb_true_iff in Hfv as [_ Hfl].
               destruct f as [|f0]; [cbn [odepth] in *; lia|].
@@ -726,12 +887,23 @@ Section Gen.
               rewrite (run_value_single f0 var _ Hmx Hk Htf Efa). cbn [gbind flat_map]. rewrite app_nil_r.
               apply Hobj; [lia|exact Hfv|cbn [odepth] in *; lia].
           + (* simple typed *)
-            unfold Fits.fits_elem in Hfv.
             assert (Hprim : forall y f', fits_item (fits n) var y = true ->
                       run c u ign (S f') (CAnyType y var) = Ok (bflat (g_prim var y))).
             { intros y f' Hfy. destruct (fits_item_simple _ var t y Htys Hst Hfy) as [p [-> Hp]].
               rewrite (run_anytype_prim f' var (VP p) (enc_p (v_format var) p) Hk Hn Hany I (encode_leaf t _ p Hp)).
               reflexivity. }
+            destruct Hsrc as [Hw|[f0 [t0 [l0 [Hf0 [Htf0 [_ [El Hil]]]]]]]]; cbn [fst snd] in *.
+            2:{ (* one item of a list field inside a sequence group *)
+                rewrite El in Hfv0. unfold Fits.fits_elem in Hfv0. rewrite Hf0, Htf0 in Hfv0.
+                apply andb_true_iff in Hfv0 as [_ Hfl]. rewrite forallb_forall in Hfl. specialize (Hfl x Hil).
+                destruct (fits_item_simple _ var t x Htys Hst Hfl) as [p [Ex Hp]].
+                rewrite Htf0.
+                destruct f as [|f0']; [cbn [odepth] in *; lia|].
+                rewrite (run_value_item f0' var x Hmx Hk Htf0); [|subst x; reflexivity].
+                destruct f0' as [|f1]; [cbn [odepth] in *; lia|].
+                rewrite (Hprim x f1 Hfl). subst x. cbn [flat_map g_item]. rewrite app_nil_r. reflexivity. }
+            unfold pair_whole in Hw. cbn [fst snd] in Hw. rewrite <- Hw in Hfv0. rename Hfv0 into Hfv.
+            unfold Fits.fits_elem in Hfv.
             destruct (v_tokens_factory var) as [tf|] eqn:Etf.
             * (* tokens *)
               destruct f as [|f0]; [cbn [odepth] in *; lia|].
@@ -776,12 +948,15 @@ Section Gen.
                  destruct f0 as [|f1]; [cbn [odepth] in *; lia|].
                  rewrite (Hprim x f1 Hfx). rewrite Ex. cbn [flat_map g_item]. rewrite app_nil_r. reflexivity.
         - (* the Text field *)
-          destruct (wf_text_inv var Hwt) as [Hwtk [Hwt0 [t [Htys Hwtd]]]]. clear Hwt. rename Hwtk into Hwt.
+          destruct (wf_text_inv var Hwt) as [Hwtk [Hwt0 [t [Htys Hwtd]]]]. rename Hwt into Hwt'. rename Hwtk into Hwt.
           destruct (var_common_inv var Hwt0) as [_ [Hmx [_ [_ [_ [_ [_ [_ _]]]]]]]].
           rewrite (g_field_some (gobj n) var x Hxn). apply wrap_ok.
           destruct f as [|f0]; [cbn [odepth] in *; lia|].
           rewrite (run_value_text f0 var x Hmx Hwt).
           unfold g_items. rewrite Hwt.
+          assert (Hxe : x = field_of fs var).
+          { destruct Hsrc as [Hw|[f1 [t1 [l1 [Hf1 _]]]]]; [exact Hw|]. cbn [fst] in Hf1.
+            rewrite (wf_text_nofactory var Hwt') in Hf1. discriminate Hf1. }
           rewrite Htx in Hft. rewrite <- Hxe in Hft.
           unfold Fits.fits_text, vtype in Hft. rewrite Htys in Hft.
           unfold convert_data.
@@ -792,8 +967,7 @@ Section Gen.
             rewrite (encode_leaf t _ p Hp). reflexivity. }
     cbn [gbind bflat app]. f_equal. f_equal. f_equal.
     - symmetry. apply map_flat_map_l.
-    - f_equal. rewrite !flat_map_flat_map. apply flat_map_ext. intros var.
-      destruct (field_of fs var); cbn [flat_map fst snd]; rewrite ?app_nil_r; reflexivity.
+    - f_equal. rewrite flat_map_flat_map. reflexivity.
   Qed.
   (* ---------------------------------------------------------------- the expected tree *)
   (* what Spec/XmlNs.v's reading of the emitted events is (Proofs/RoundtripTree.v): the same
@@ -857,7 +1031,7 @@ Section Gen.
         | Some m =>
             EElem (Bind.split_qname (match qn with Some ((_ :: _) as q) => q | _ => m_qname m end))
                   (flat_map (fun var => e_attr var (field_of fs var)) (get_attribute_vars m))
-                  (flat_map (fun var => e_field (eobj k) var (field_of fs var)) (get_element_vars m))
+                  (flat_map (fun vv => e_field (eobj k) (fst vv) (snd vv)) (pairs cl fs m))
         | None => EData []
         end
     | _, _ => EData []
